@@ -300,6 +300,9 @@ def body(chk):
     chk.assumptions += ["the in-memory twin (NumPy/xarray on the fully loaded array) is the reference for two-axis outer / vectorised / "
                         "label selections; one-axis expressions are judged by the TLA+ function, which the twin cross-checks every run",
                         "full-image loads equal the file content (C01)"]
+    from harness import sessioncheck
+
+    sessioncheck.standard(chk)
     chk.finish(
         rule="points = every one-axis expression of Exprs(n), n=1..MaxLen (ints -n-1..n, slices with start/stop in {None} U "
              "-n-2..n+2 and step in {None} U +-1..+-(n+1), integer arrays up to MaxArr entries, all boolean masks) as "
